@@ -124,6 +124,33 @@ func (r *runner) offence(st *Step) {
 			c.CloseFIN()
 		}
 		clientClosed = true
+	case "update_then_close":
+		// pose / component updates waiting for the next frame when the connection dies
+		for _, p := range o.Raws {
+			c.SendPayload(p)
+		}
+		sim.Stats["fault.close_with_updates_pending"]++
+		if o.Then == "rst" {
+			c.Reset()
+		} else {
+			c.CloseFIN()
+		}
+		clientClosed = true
+	case "close_amid":
+		// the connection dies at the very instant the other members are busy
+		w := r.clients[o.Witness]
+		if w != nil && !w.Ended() {
+			for _, p := range o.Raws {
+				w.SendPayload(p)
+			}
+		}
+		sim.Stats["fault.close_amid_traffic"]++
+		if o.Then == "rst" {
+			c.Reset()
+		} else {
+			c.CloseFIN()
+		}
+		clientClosed = true
 	case "silence":
 		// nothing for longer than the idle timeout: must be disconnected
 		sim.Stats["fault.silence_past_idle_timeout"]++
